@@ -50,9 +50,14 @@ def fromHeaders (index secs micros : Nat) (shEcu : Bytes) (h : StdHdr) (add : By
   let ext := if h.hasExt then some (add.drop (add.length - 10)) else none
   { index, recvUs := secs * 1000000 + micros, ecu, tsDms := ts, std := h, ext, payload }
 
-/-- is there a marker at some i in [5, toConsume) of data -/
+/-- is there a marker at some i in [5, toConsume) of data (linear scan, like the Rust loop) -/
+def markerScan (p : Bytes) : Bytes → Nat → Bool
+  | _, 0 => false
+  | [], _ => false
+  | x :: t, n + 1 => isPat p (x :: t) || markerScan p t n
+
 def markerInside (p : Bytes) (d : Bytes) (toConsume : Nat) : Bool :=
-  (List.range toConsume).any fun i => i ≥ 5 && isPat p (d.drop i)
+  markerScan p (d.drop 5) (toConsume - 5)
 
 def parseStorage (index : Nat) (d : Bytes) : Except PErr (Nat × Msg) :=
   if d.length < 20 then .error .notEnough else
